@@ -17,6 +17,7 @@
 
 import logging
 import sys
+from pathlib import Path
 from typing import IO, Optional, Type, cast
 
 from jinja2 import Environment, FileSystemLoader, Template
@@ -82,6 +83,7 @@ def add_header_to_file(
     """Helper function."""
     # pylint: disable=too-many-arguments,too-many-locals
     result = 0
+    created_dot_license = False
     comment_style: Optional[Type[CommentStyle]] = NAME_STYLE_MAP.get(
         cast(str, style)
     )
@@ -100,7 +102,9 @@ def add_header_to_file(
             )
             out.write("\n")
             path = _determine_license_suffix_path(path)
-            path.touch()
+            if not path.exists():
+                path.touch()
+                created_dot_license = True
             comment_style = EmptyCommentStyle
 
     with open(path, "r", encoding="utf-8", newline="") as fp:
@@ -165,5 +169,10 @@ def add_header_to_file(
         # TODO: This may need to be rephrased more elegantly.
         out.write(_("Successfully changed header of {path}").format(path=path))
         out.write("\n")
+
+    if result and created_dot_license:
+        # Do not leave an empty .license file behind if no header could be
+        # written into it.
+        Path(path).unlink()
 
     return result
